@@ -110,6 +110,26 @@ fn json_strategy() -> BoxedStrategy<Case> {
       Case::Json(v)
     }),
     1 => vec(any::<u8>(), 0..=40).prop_map(Case::Json),
+    // what surrounds a source map in the wild, around (part of) a document: the XSSI guard, byte-order marks, the
+    // sourceMappingURL comment, a data: URL head, blank bytes - with and without the line break that normally follows
+    2 => (0..JSON_SEEDS.len(), any::<u16>(), vec((0u8..12u8, any::<bool>()), 1..=3), proptest::option::weighted(0.3, 0u8..12u8)).prop_map(|(k, cut, pre, post)| {
+      const FRAMES: &[&[u8]] = &[b")]}'", b")]}", b")]}',", b"\xef\xbb\xbf", b"\xff\xfe", b"\xfe\xff", b"//# sourceMappingURL=", b"/*# sourceMappingURL=", b"data:application/json;base64,", b" \t", b"\r", b"\0"];
+      let mut v = vec![];
+      for (f, nl) in pre {
+        v.extend_from_slice(FRAMES[f as usize]);
+        if nl {
+          v.push(b'\n');
+        }
+      }
+      let doc = JSON_SEEDS[k].as_bytes();
+      // the whole document, a prefix of it, or nothing
+      let take = match cut % 4 { 0 => 0, 1 => idx(cut, doc.len() + 1), _ => doc.len() };
+      v.extend_from_slice(&doc[..take]);
+      if let Some(f) = post {
+        v.extend_from_slice(FRAMES[f as usize]);
+      }
+      Case::Json(v)
+    }),
     // deep nesting and long strings
     1 => (1usize..2000, 0u8..4u8).prop_map(|(n, k)| Case::Json(match k {
       0 => "[".repeat(n).into_bytes(),
